@@ -194,7 +194,15 @@ impl<'u> VisitMut for GenSubst<'u> {
         let de: Vec<String> = self.unit.opts.get("degeneric").and_then(|v| v.as_array()).map(|a| a.iter().filter_map(|x| x.as_str().map(|s| s.to_string())).collect()).unwrap_or_default();
         for seg in p.segments.iter_mut() {
             if de.iter().any(|d| seg.ident == d) {
-                seg.arguments = PathArguments::None;
+                // drop type arguments, keep lifetimes
+                if let PathArguments::AngleBracketed(ab) = &mut seg.arguments {
+                    let kept: Punctuated<GenericArgument, Token![,]> = ab.args.iter().filter(|a| matches!(a, GenericArgument::Lifetime(_))).cloned().collect();
+                    if kept.is_empty() { seg.arguments = PathArguments::None; } else { ab.args = kept; }
+                }
+            }
+            let op: Vec<String> = self.unit.opts.get("opaque_types").and_then(|v| v.as_array()).map(|a| a.iter().filter_map(|x| x.as_str().map(|s| s.to_string())).collect()).unwrap_or_default();
+            if op.iter().any(|d| seg.ident == d) {
+                seg.ident = ident(&format!("Opaque{}", seg.ident));
             }
         }
         visit_mut::visit_path_mut(self, p);
@@ -202,7 +210,7 @@ impl<'u> VisitMut for GenSubst<'u> {
 }
 
 fn subst_generics_type(ty: &mut Type, unit: &Unit) {
-    if unit.generic_subst.is_empty() {
+    if unit.generic_subst.is_empty() && unit.opts.get("degeneric").is_none() && unit.opts.get("opaque_types").is_none() {
         return;
     }
     GenSubst { unit }.visit_type_mut(ty);
@@ -210,7 +218,7 @@ fn subst_generics_type(ty: &mut Type, unit: &Unit) {
 
 fn rewrite_fn(name: &str, sig: &mut Signature, block: &mut Block, unit: &Unit, log: &mut Log, lifted: &mut Vec<Item>) {
     apply_generic_subst_generics(&mut sig.generics, unit);
-    if !unit.generic_subst.is_empty() {
+    if !unit.generic_subst.is_empty() || unit.opts.get("degeneric").is_some() || unit.opts.get("opaque_types").is_some() {
         let mut gs = GenSubst { unit };
         for a in sig.inputs.iter_mut() {
             gs.visit_fn_arg_mut(a);
@@ -496,6 +504,13 @@ impl<'a> Body<'a> {
                     }
                 }
                 let f = c.func.to_token_stream().to_string().replace(' ', "");
+                if (f == "min" || f == "max" || f == "std::cmp::min" || f == "std::cmp::max") && c.args.len() == 2 {
+                    let g = ident(if f.ends_with("min") { "vmin" } else { "vmax" });
+                    let (a, b) = (&c.args[0], &c.args[1]);
+                    self.note("R5", format!("std::cmp::{} -> v{}", &f[f.len() - 3..], &f[f.len() - 3..]));
+                    *e = parse_expr(quote!(#g(#a, #b)));
+                    return;
+                }
                 if self.opt("strip_refcell") && f == "RefCell::new" && c.args.len() == 1 {
                     let a = c.args[0].clone();
                     self.note("R1", "`RefCell::new(E)` -> `E`".into());
@@ -513,6 +528,12 @@ impl<'a> Body<'a> {
                     *e = parse_expr(quote!(HashMap::new()));
                     return;
                 }
+            }
+            Expr::Binary(b) if matches!(b.op, BinOp::Eq(_)) && matches!(strip_paren(&b.left), Expr::Reference(r) if matches!(strip_paren(&r.expr), Expr::Index(ix) if matches!(&*ix.index, Expr::Range(rg) if rg.start.is_none() && rg.end.is_none()))) => {
+                // R3: `&v[..] == w` (slice comparison) -> slice_eq(&v[..], w)
+                let (l, r) = (&b.left, &b.right);
+                self.note("R3", "`&v[..] == w` -> slice_eq(&v[..], w)".into());
+                *e = parse_expr(quote!(slice_eq(#l, #r)));
             }
             Expr::Index(ix) => {
                 // R26: `x[Enum::Variant]` through the repository's one-line `impl Index<Enum> for Scores { &self.0[score as usize] }`
@@ -727,7 +748,9 @@ impl<'a> Body<'a> {
         let k = self.fresh();
         let end = ident(&format!("__end{k}"));
         let start = r.start.as_ref().map(|x| x.to_token_stream()).unwrap_or(quote!(0));
-        let pat = &fl.pat;
+        // a wildcard loop variable gets a name so that invariants can count iterations
+        let named: Pat = if matches!(&*fl.pat, Pat::Wild(_)) { let n = ident(&format!("__k{k}")); parse_quote!(#n) } else { (*fl.pat).clone() };
+        let pat = &named;
         let body = &fl.body.stmts;
         let label = &fl.label;
         let limits = match r.limits {
@@ -797,15 +820,22 @@ impl<'a> Body<'a> {
         } else {
             return None;
         };
-        if !(is_simple(&a) && is_simple(&b)) {
-            return None;
-        }
         let Pat::Ident(pi) = &*fl.pat else { return None };
         let x = &pi.ident;
         let k = self.fresh();
         let it = ident(&format!("__{}{}", x, k));
         let body = &fl.body.stmts;
         self.note("R15", format!("for {} in ({}..{}).rev() -> decrementing while loop", x, a.to_token_stream(), b.to_token_stream()));
+        if !(is_simple(&a) && is_simple(&b)) {
+            // the range bounds are evaluated once, before the loop
+            let (lo, hi) = (ident(&format!("__lo{k}")), ident(&format!("__hi{k}")));
+            return Some(parse_stmts(quote!(
+                let #lo = #a;
+                let #hi = #b;
+                let mut #it = #hi;
+                while #it > #lo { #it -= 1; let #x = #it; #(#body)* }
+            )));
+        }
         Some(parse_stmts(quote!(
             let mut #it = #b;
             while #it > #a { #it -= 1; let #x = #it; #(#body)* }
@@ -816,6 +846,21 @@ impl<'a> Body<'a> {
     /// applies to the method names listed in opts.iter_ctors, e.g. { trigrams = "TrigramIter::new" } (R8b: the one-line
     /// trait method `fn trigrams(&self) -> TrigramIter { TrigramIter::new(self) }` is inlined)
     fn rule_custom_iter(&mut self, fl: &ExprForLoop) -> Option<Vec<Stmt>> {
+        if let Expr::Call(c) = &*fl.expr {
+            let f = c.func.to_token_stream().to_string().replace(' ', "");
+            if self.unit.opts.get("iter_calls").and_then(|v| v.as_table()).map(|t| t.contains_key(&f)).unwrap_or(false) {
+                let k = self.fresh();
+                let it = ident(&format!("__it{k}"));
+                let pat = &fl.pat;
+                let body = &fl.body.stmts;
+                let call = &fl.expr;
+                self.note("R8", format!("for {} in {}(..) -> explicit next() loop", pat.to_token_stream(), f));
+                return Some(parse_stmts(quote!(
+                    let mut #it = #call;
+                    loop { match #it.next() { Some(#pat) => { #(#body)* } None => { break; } } }
+                )));
+            }
+        }
         let table = self.unit.opts.get("iter_ctors").and_then(|v| v.as_table())?;
         let Expr::MethodCall(mc) = &*fl.expr else { return None };
         let ctor = table.get(&mc.method.to_string())?.as_str()?;
